@@ -244,11 +244,12 @@ func streamPlan(envs []cat.Envelope, thorough bool) (plan [][]string) {
 		plan = append(plan, []string{rep[m]}, []string{rep[m], second[m]})
 	}
 	for _, e := range envs {
-		if e.Big > 0 {
-			plan = append(plan, []string{e.Name})
-			if thorough || e.Big < 4096 {
-				plan = append(plan, []string{e.Name, rep[e.Msg]}, []string{rep[e.Msg], e.Name})
-			}
+		if e.Big == 0 || (e.NoStream && !thorough) {
+			continue
+		}
+		plan = append(plan, []string{e.Name})
+		if thorough || e.Big < 4096 {
+			plan = append(plan, []string{e.Name, rep[e.Msg]}, []string{rep[e.Msg], e.Name})
 		}
 	}
 	return
